@@ -1,4 +1,5 @@
 import Norad.Lemmas.C11
+import Norad.Generated.ContourAutomaton
 /-!
 # C11 — a contour is accepted exactly when its point sequence is legal
 
@@ -201,6 +202,63 @@ theorem v1_single_named_move_becomes_anchor (cs : List (List (Pt × Bool)))
         exact ⟨hc, hne, hia⟩
       · rintro ⟨hc, hne, hia⟩
         exact ⟨⟨(mem_enumFrom cs 0 n c).2 ⟨n, by omega, hc⟩, hne⟩, hia⟩
+
+/-! ## source-level tie: the automaton regenerated from `src/glyph/builder.rs` on every run
+
+`Generated/ContourAutomaton.lean` is written by `tools/extract_contour_automaton.py` from the `match` arms of
+`add_point` and of the wrap-around loop of `end_path` as they stand in the working tree.  The three theorems
+below say that the regenerated functions ARE the hand-written model's, so `accepts_iff_legal` and everything
+above is re-checked against the current source; a changed threshold, error or counter update in the Rust makes
+one of them fail to check (and the correspondence run then looks for the concrete contour). -/
+
+theorem source_addPoint_eq_model : Gen.addPoint = addPoint := by
+  funext e n p
+  unfold Gen.addPoint addPoint
+  cases p.typ <;> cases e <;> simp
+
+theorem source_wrap_eq_model : Gen.wrap = wrap := by
+  funext pts
+  induction pts with
+  | nil => funext n; simp [Gen.wrap, wrap]
+  | cons p ps ih =>
+    funext n
+    unfold Gen.wrap wrap
+    cases p.typ <;> simp [ih]
+
+theorem source_endPath_eq_model : Gen.endPath = endPath := by
+  funext pts n
+  unfold Gen.endPath endPath
+  rw [source_wrap_eq_model]
+
+/-- the builder as regenerated from the source accepts exactly the legal sequences -/
+def Gen.feed : List Pt → Bool → Nat → Except Err Nat
+  | [], _, n => .ok n
+  | p :: ps, e, n =>
+    match Gen.addPoint e n p with
+    | .error x => .error x
+    | .ok n' => Gen.feed ps false n'
+
+def Gen.accepts (pts : List Pt) : Bool :=
+  match Gen.feed pts true 0 with
+  | .error _ => false
+  | .ok n => match Gen.endPath pts n with | .ok _ => true | .error _ => false
+
+theorem source_accepts_iff_legal (pts : List Pt) : Gen.accepts pts = true ↔ Legal pts := by
+  have hf : ∀ (ps : List Pt) e n, Gen.feed ps e n = feed ps e n := by
+    intro ps
+    induction ps with
+    | nil => intro e n; simp [Gen.feed, feed]
+    | cons p ps ih =>
+      intro e n
+      unfold Gen.feed feed
+      rw [source_addPoint_eq_model]
+      cases addPoint e n p <;> simp [ih]
+  have : Gen.accepts pts = accepts pts := by
+    unfold Gen.accepts accepts
+    rw [hf, source_endPath_eq_model]
+    rfl
+  rw [this]
+  exact accepts_iff_legal pts
 
 -- non-vacuity: a closed contour starting with two off-curves and ending with one is legal
 -- (wrap-around = 3 > 2 would not be)
